@@ -31,7 +31,7 @@ def corpus():
         "1.2.3.0/24", "::/64", "1.2.3.4/255.255.255.0",
         "12345678-1234-5678-1234-567812345678", "12345678123456781234567812345678", "{12345678-1234-5678-1234-567812345678}",
         "urn:uuid:12345678-1234-5678-1234-567812345678", "1234", "g" * 32,
-        "/a/b", "a/b", "c:\\a", ".", "a\x00b", "True", "False", "None", "true",
+        "/a/b", "a/b", "c:\\a", ".", "a\x00b", "True", "False", "None", "true", "\ud800", "a\udcffb",
     ]
     I = [0, 1, -1, 2, 255, 256, -256, 2 ** 31, 2 ** 32, 2 ** 53 + 1, 2 ** 63, 2 ** 64, 2 ** 128, -2 ** 128, 10 ** 30, 10 ** 400,
          -10 ** 400, 86400 * 10 ** 9, 10 ** 15, 999999999 * 86400 + 1, 2 ** 129]
